@@ -513,6 +513,69 @@ def run(repo):
         res.fail(Finding(RULE, amb.fq, 'all_constr -> raise',
                          'dro.Model.ambiguity() can create an ambiguity set after constraints exist',
                          repo.where(amb), P17))
+    # ----------------------------------------------------------------- (c2) the reference model is fixed once
+    # In a scan over several operands the first model-bearing operand supplies the reference (`model = item.model`
+    # under `model is None`) and every later one is compared with it.  If the reference can be re-bound under any
+    # other condition, the comparison of that operand is skipped and the earlier operands are never compared with
+    # the new reference: objects of two models are combined silently.
+    from rsx.flow import holds as _holds
+    n_ref = 0
+    for fi in repo.all_functions():
+        if fi.module not in ('lp', 'math', 'subroutines', 'ro', 'dro'):
+            continue
+        refs = set()
+        for n in walk_no_nested(fi.node):
+            if isinstance(n, ast.Compare) and len(n.ops) == 1 and isinstance(n.ops[0], (ast.NotEq, ast.IsNot, ast.Eq, ast.Is)) \
+                    and isinstance(n.left, ast.Name) and isinstance(n.comparators[0], ast.Attribute) and \
+                    n.comparators[0].attr == 'model':
+                refs.add(n.left.id)
+            if isinstance(n, ast.Compare) and len(n.ops) == 1 and isinstance(n.ops[0], (ast.NotEq, ast.IsNot, ast.Eq, ast.Is)) \
+                    and isinstance(n.comparators[0], ast.Name) and isinstance(n.left, ast.Attribute) and n.left.attr == 'model':
+                refs.add(n.comparators[0].id)
+        refs -= set(fi.params)
+        if not refs:
+            continue
+
+        class _Ref(MustFlow):
+            def __init__(self):
+                super().__init__()
+                self.sites = []
+
+            def refine(self, test, branch, state):
+                return state
+
+            def visit(self, node, state):
+                if isinstance(node, ast.Assign) and len(node.targets) == 1 and isinstance(node.targets[0], ast.Name) and \
+                        node.targets[0].id in refs and isinstance(node.value, ast.Attribute) and node.value.attr == 'model' \
+                        and self.depth > 0:
+                    self.sites.append((node, _holds(state, node.targets[0].id + ' is None')))
+
+            depth = 0
+
+            def _loop(self, st_, state):
+                self.depth += 1
+                try:
+                    return super()._loop(st_, state)
+                finally:
+                    self.depth -= 1
+        fl = _Ref()
+        fl.run(body_stmts(fi))
+        seen_ = set()
+        for node, ok in fl.sites:
+            if id(node) in seen_ and ok:
+                continue
+            seen_.add(id(node))
+            n_ref += 1
+            res.functions.add(fi.fq)
+            res.inst({'function': fi.fq, 'reference model bound': ntext(node), 'only_when_unset': ok}, ok)
+            if not ok:
+                res.fail(Finding(RULE, fi.fq, 'reference model re-bound: ' + ntext(node)[:40],
+                                 '%s re-binds the reference `%s` inside the scan over the operands on a path where it '
+                                 'is already set: the operand that re-binds it is not compared with the previous '
+                                 'reference, so operands of different models pass the identity check'
+                                 % (fi.fq, ntext(node)), repo.where(fi, node), P17))
+    if n_ref < 1:
+        raise AnalysisError('R20: no scan with a reference model (model = item.model under `model is None`) found')
     # ----------------------------------------------------------------- (d) shared state
     for ci in repo.all_classes():
         if ci.module in ('deco', 'cpt_solver_bkp'):
